@@ -143,7 +143,7 @@ def generate(textx):
                     for arg in generator_args:
                         if arg.mandatory and arg.name not in given_args:
                             raise TextXError(f"Parameter '{arg.name}' must be provided.")
-                if given_args and generator_args:
+                if given_args and generator_args is not None:
                     generator_arg_names = set(a.name for a in generator_args)
                     for arg in given_args:
                         if arg not in generator_arg_names:
